@@ -89,9 +89,11 @@ def main():
         if r != 0:
             print(f"check {c['property_id']} is not silent on the unchanged tree (exit {r}); fix that first")
             return 2
-    rc, o = sh(f"git apply {patch}", cwd=REPO)
+    rc, o = sh(f"git apply --check {patch}", cwd=REPO)
     if rc != 0:
-        rc, o = sh(f"git apply --3way {patch}", cwd=REPO)
+        print("the patch does not apply to /repo HEAD any more (rebase it by hand):", o[-300:])
+        return 2
+    rc, o = sh(f"git apply {patch}", cwd=REPO)
     try:
         if rc == 0:
             for c in man["checks"]:
